@@ -24,6 +24,7 @@ import gzip
 import json
 import os
 import queue
+import random
 import select
 import subprocess
 import threading
@@ -120,22 +121,28 @@ _vm = int(open("/proc/self/status").read().split("VmSize:")[1].split()[0]) >> 10
 resource.setrlimit(resource.RLIMIT_AS, ((_vm + cap_mb) << 20, (_vm + cap_mb) << 20))
 
 EXEC = []
-def producer(spec):
+def producer(spec, tag=None):
     EXEC.append(1)
     return make_obj(spec)
 
+# a second argument of the cached call (ignored by the function, part of the cache key and of every message about the call):
+# values whose repr holds braces / format fields
+TAGS = [None, {"alpha": 1}, "{0} {x} {}", {"{k}", 2}, [{"a": {"b": "}{"}}]]
+
 MEMS = {}
-def mem_entry(spec, comp, level):
-    key = json.dumps([spec, comp, level])
+def mem_entry(spec, comp, level, tag=0):
+    key = json.dumps([spec, comp, level, tag])
     if key not in MEMS:
         d = os.path.join(scratch, "mem%d" % len(MEMS))
         mem = joblib.Memory(d, verbose=0, compress=((comp, level) if comp != "none" else False))
         f = mem.cache(producer)
-        f(tuple(spec))
+        call = (lambda: f(tuple(spec))) if not tag else (lambda: f(tuple(spec), TAGS[tag]))
+        call()
         items = mem.store_backend.get_items()
         assert len(items) == 1, items
         out = os.path.join(items[0].path, "output.pkl")
-        MEMS[key] = (f, out, open(out, "rb").read())
+        md = os.path.join(items[0].path, "metadata.json")
+        MEMS[key] = (call, out, open(out, "rb").read(), md, open(md, "rb").read())
     return MEMS[key]
 
 def damaged(item):
@@ -153,16 +160,24 @@ def run(item):
     spec, route = item["spec"], item["route"]
     want = make_obj(spec)
     if route == "memory":
-        f, out, orig = mem_entry(spec, item["comp"], item["level"])
+        f, out, orig, md, md_orig = mem_entry(spec, item["comp"], item["level"], item.get("tag", 0))
         valid = open(item["valid"], "rb").read()
         if orig != valid:
             return dict(cls="infra", detail="output.pkl differs from joblib.dump of the same object: %r vs %r" % (orig[:40], valid[:40]))
         data = damaged(item)
         with open(out, "wb") as fh:
             fh.write(data)
+        # the entry's metadata.json: as stored / missing (writer killed between the two files) / a strict prefix / empty
+        how = item.get("meta", "keep")
+        if how == "missing":
+            if os.path.exists(md):
+                os.unlink(md)
+        else:
+            with open(md, "wb") as fh:
+                fh.write(md_orig if how == "keep" else b"" if how == "empty" else md_orig[:max(1, len(md_orig) // 2)])
         del EXEC[:]
         try:
-            v = f(tuple(spec))
+            v = f()
         except MemoryError:
             return dict(cls="hang", detail="memory-cap")
         except Exception as e:
@@ -651,6 +666,12 @@ def _explore(ctx, salt, plan=None, only=None, budget_scale=1):
     order.sort(key=lambda t: (t[1][0] == "cut", t[0]["R"], len(str(t[1])), t[2] != "fileobj"))
     for i, (f, dmg, route) in enumerate(order):
         items.append(dict(id=i, spec=f["spec"], comp=f["comp"], level=f["level"], valid=f["valid"], damage=dmg, route=route))
+        if route == "memory":
+            # the damaged entry as a whole: an argument whose repr holds braces, metadata.json missing / torn as well
+            rr = random.Random(f"{ctx.seed}/memvar/{i}")
+            items[-1]["tag"] = only[3] if only and len(only) > 3 else rr.choice([0, 0, 1, 2, 3, 4])
+            items[-1]["meta"] = only[4] if only and len(only) > 4 else rr.choice(["keep", "keep", "missing", "prefix", "empty"])
+            res.count("memory-route:arg=%s:metadata=%s" % ("plain" if not items[-1]["tag"] else "braces", items[-1]["meta"]))
         meta[i] = (f, dmg, route)
     t0 = time.time()
     plain = [it for it in items if it["spec"][0] != "np"]
@@ -705,6 +726,8 @@ def _explore(ctx, salt, plan=None, only=None, budget_scale=1):
         if rep["cls"] == "infra":
             raise core.InfraError(f"worker: {rep.get('detail')} on {_case(f, dmg, route)}")
         case = _case(f, dmg, route)
+        if route == "memory":
+            case["tag"], case["meta"] = items[i].get("tag", 0), items[i].get("meta", "keep")
         kind = _kind(dmg)
         res.evaluations += 1
         res.count(f"comp={f['comp']}")
@@ -810,7 +833,7 @@ def run(ctx):
         if not dmg or any(isinstance(x, str) and x.endswith("…") for x in dmg):
             raise core.InfraError("replay file does not carry the full damage description")
         plan = [(tuple(case["spec"]), case["comp"], case["level"])]
-        return _explore(ctx, "replay", plan=plan, only=(None, [dmg], [case["route"]]))
+        return _explore(ctx, "replay", plan=plan, only=(None, [dmg], [case["route"]], case.get("tag", 0), case.get("meta", "keep")))
     return _explore(ctx, "main")
 
 
